@@ -40,7 +40,7 @@ fn c_x() {
     assert!(kz::eq(&a.0, &kz::x(&b.0, &a0)));
 }
 
-// @ob name=c_lsx cfg=compact props=C07,C20 fn=kuznyechik::compact_soft::backends::lsx uses=c_l_step,c_ell_tables timeout=600
+// @ob name=c_lsx cfg=compact props=C07,C20 fn=kuznyechik::compact_soft::backends::lsx uses=c_l_step_*,c_ell_tables timeout=600
 #[kani::proof]
 #[kani::stub(crate::utils::l_step, spec_l_step)]
 #[kani::stub(bcref::kuznyechik::ell, ruf::ell)]
@@ -53,7 +53,7 @@ fn c_lsx() {
     assert!(kz::eq(&b.0, &kz::lsx(&k.0, &b0)));
 }
 
-// @ob name=c_lsx_inv cfg=compact props=C07,C20 fn=kuznyechik::compact_soft::backends::lsx_inv uses=c_l_step,c_ell_tables timeout=600
+// @ob name=c_lsx_inv cfg=compact props=C07,C20 fn=kuznyechik::compact_soft::backends::lsx_inv uses=c_l_step_*,c_ell_tables timeout=600
 #[kani::proof]
 #[kani::stub(crate::utils::l_step, spec_l_step)]
 #[kani::stub(bcref::kuznyechik::ell, ruf::ell)]
